@@ -1,7 +1,7 @@
 (* Properties/C04.v -- C04: frame indifference and crystal-symmetry invariance of rates *)
 From Coq Require Import Reals ZArith List.
 From PV Require Import Num NumR Model_core Spec_drex Proofs_core Proofs_total Proofs_spec
-                       Proofs_frame Proofs_frame2 Proofs_twofold.
+                       Proofs_frame Proofs_frame2 Proofs_twofold Proofs_twofold2.
 From PV.gen Require Import Gen_core.
 Import ListNotations.
 Open Scope R_scope.
@@ -38,25 +38,50 @@ Theorem C04_spin_frame : forall (Q G L : arr R) g,
   @spec_spin NumR (conj Q G) (conj Q L) g = cofv Q (@spec_spin NumR G L g).
 Proof. exact spin_frame. Qed.
 
-(* crystal two-folds (sign flip of two rows).  PARTIAL: proved are the sign pattern of the slip
-   invariants, the invariance of all slip activities (hence of the activity order) and the
-   row-wise sign rule of the rate; the composition through the relative slip rates (where the
-   sign(I_s/I_max) factor of the source matters) is measured by paired runs, not yet proved *)
-Theorem C04_twofold_invariants_partial : forall sa sb sc (D A : arr R),
+(* crystal two-folds: a sign triple (sa, sb, sc) in {+1,-1}^3 scales the rows a, b, c of a grain's
+   orientation; two flipped rows = a 180 degree rotation about the third crystal axis.
+   Slip invariants pick up the sign product of their system, so all activities and the activity
+   order are unchanged ... *)
+Theorem C04_twofold_invariants : forall sa sb sc (D A : arr R),
   @spec_invariants NumR D (flip sa sb sc A)
   = mk_arr 0 [(sa * sb) * @spec_invariant NumR D A 0; (sa * sc) * @spec_invariant NumR D A 1;
               (sc * sb) * @spec_invariant NumR D A 2; (sc * sa) * @spec_invariant NumR D A 3].
 Proof. exact invariants_flip. Qed.
 
-Theorem C04_twofold_activities_partial : forall sa sb sc tau (D A : arr R), pm1 sa -> pm1 sb -> pm1 sc ->
+Theorem C04_twofold_activities : forall sa sb sc tau (D A : arr R), pm1 sa -> pm1 sb -> pm1 sc ->
   @spec_activities NumR tau (@spec_invariants NumR D (flip sa sb sc A))
   = @spec_activities NumR tau (@spec_invariants NumR D A).
 Proof. exact activities_flip. Qed.
 
-Theorem C04_twofold_row_rate_partial : forall (w a : R * R * R) s,
-  @cross NumR w (let '(x, y, z) := a in (s * x, s * y, s * z))
-  = let '(x, y, z) := @cross NumR w a in (s * x, s * y, s * z).
-Proof. exact cross_flip. Qed.
+(* ... the relative slip rates pick up t_s t_max (this is where the sign(I_s/I_max) factor of the
+   source matters: with |r|^n instead of r|r|^(n-1) the lemma is false) ... *)
+Theorem C04_twofold_slip_rates : forall (t : nat -> R) tau (inv : arr R) P n s,
+  (forall k, pm1 (t k)) -> inv (pidx P 3) <> 0 ->
+  @spec_beta NumR tau (fun k => t k * inv k) P n s
+  = t s * t (pidx P 3) * @spec_beta NumR tau inv P n s.
+Proof. exact beta_flip. Qed.
+
+(* ... and the generated kernel returns the equivalent rate (rows scaled by the same signs) and
+   the identical strain energy ... *)
+Theorem C04_twofold_kernel : forall ph fb (s : sgn3) (A D L : arr R) p n lam,
+  valid_pair ph fb -> n <> 0 -> sgn_ok s ->
+  let '(a, b, c) := s in
+  flip_related a b c (@k_get_rotation_and_strain NumR ph fb A D L p n lam)
+                     (@k_get_rotation_and_strain NumR ph fb (flip3 s A) D L p n lam).
+Proof. exact kernel_flip. Qed.
+
+(* ... so that for ANY subset of grains (one sign triple per grain, any number of grains) the
+   relabelled grains get the equivalent rate and ALL grains identical volume rates *)
+Theorem C04_twofold_aggregate : forall regime ph fb (D L S : arr R) sg os fs p n lam M phi,
+  dislocation_regime regime -> valid_pair ph fb -> n <> 0 ->
+  Forall sgn_ok sg -> length sg = length os ->
+  derivs_flipped sg (@derivs NumR regime ph fb os fs D L S p n lam M phi)
+                    (@derivs NumR regime ph fb (flips sg os) fs D L S p n lam M phi).
+Proof. exact derivs_flip. Qed.
+
+Theorem C04_twofolds_are_sign_triples :
+  sgn_ok (1, 1, 1) /\ sgn_ok (1, -1, -1) /\ sgn_ok (-1, 1, -1) /\ sgn_ok (-1, -1, 1).
+Proof. exact twofolds_ok. Qed.
 
 Example C04_nonvacuous : SO3 Qex /\ Qex 1%nat <> 0.
 Proof. exact C04_nonvacuous_proof. Qed.
